@@ -29,6 +29,10 @@ CONSTANTS
                        \*       FALSE: StrictHTTPClient checks the scheme of the first request only (F14 as found)
     RedirectHostGuard, \* TRUE: an https redirect to ANOTHER host (name or IP literal) is refused.  FALSE: net/http default policy, it is
                        \*       followed and the document of the foreign origin accepted (open part of F14)
+    LiveRedirectPolicy,\* TRUE: the redirect policy of the StrictHTTPClient consults client.StrictMode when the redirect happens (the tree).
+                       \*       FALSE: it is chosen once, with the value the flag had when the client was CONSTRUCTED - wrong for the did:web
+                       \*       resolver of a node, which vdr.Configure builds before http.Engine.Configure (registered last) switches the flag on
+    Builds,            \* when the resolver (and its HTTP client) is constructed relative to strict mode being switched on
     SlashKeptEncoded,  \* TRUE: "%2F" inside a path segment stays inside that segment of the fetched URL.  FALSE: web.go appends
                        \*       "/did.json" to URL.Path only, RawPath is lost and the slash becomes a separator
     EscapedRoundTrip,  \* TRUE: URLToDID re-escapes everything DIDToURL left escaped.  FALSE: only the sub-delims are re-escaped, an
@@ -64,8 +68,9 @@ RoundTrips(h, p)  == /\ HostAccepted(h) /\ ~PathRejected(p)
 (*--------------------------- server answer classes ----------------------*)
 IsRedirect(a)   == a \in {"redir-samehost", "redir-otherhost", "redir-http", "redir-http-ip", "redir-https-ip"}
 RedirectLeaves(a) == a \in {"redir-otherhost", "redir-http", "redir-http-ip", "redir-https-ip"}
-RedirectRefused(a) == \/ (a \in {"redir-http", "redir-http-ip"} /\ RedirectHttpsGuard)
-                      \/ (a \in {"redir-otherhost", "redir-https-ip", "redir-http-ip"} /\ RedirectHostGuard)
+\* ps: the strict-mode value the client's redirect policy acts on
+RedirectRefused(a, ps) == \/ (a \in {"redir-http", "redir-http-ip"} /\ RedirectHttpsGuard /\ ps)
+                          \/ (a \in {"redir-otherhost", "redir-https-ip", "redir-http-ip"} /\ RedirectHostGuard /\ ps)
 RedirOrigin(a)  == CASE a = "redir-samehost"  -> [scheme |-> "https", host |-> "enc",   path |-> "moved"]
                      [] a = "redir-otherhost" -> [scheme |-> "https", host |-> "other", path |-> "moved"]
                      [] a = "redir-http"      -> [scheme |-> "http",  host |-> "enc",   path |-> "moved"]
@@ -83,19 +88,35 @@ VARIABLES
     outcome,  \* "none" | "doc" | "error"
     docid,    \* "none" | "requested" | "other"
     why,      \* reason of an error (prediction only; not part of the property)
-    rt        \* "na" | "ok" | "fail": URLToDID(DIDToURL(id)) = id
+    rt,       \* "na" | "ok" | "fail": URLToDID(DIDToURL(id)) = id
+    flag,     \* client.StrictMode: FALSE when the process starts, TRUE once http.Engine.Configure of the (strict) node has run
+    atBuild   \* the value the flag had when the resolver's HTTP client was constructed
 
-vars == <<c, pc, fetches, outcome, docid, why, rt>>
+vars == <<c, pc, fetches, outcome, docid, why, rt, flag, atBuild>>
 
 NA == "na"
-WebRemote  == [m : {"web"}, host : HostClasses, path : PathClasses, ans : Answers, local : {"none"}, meta : {"nil"}, key : {NA}]
+WebRemote  == [m : {"web"}, host : HostClasses, path : PathClasses, ans : Answers, local : {"none"}, meta : {"nil"}, key : {NA}, built : Builds]
 \* DIDs managed by this node always have the shape <root did>:iam:<uuid>
-WebManaged == [m : {"web"}, host : {"name"}, path : {"segs"}, ans : Answers, local : {"active", "deactivated"}, meta : Metas, key : {NA}]
-Pure       == [m : {"jwk", "key"}, host : {NA}, path : {NA}, ans : {NA}, local : {"none"}, meta : Metas, key : KeyClasses]
+WebManaged == [m : {"web"}, host : {"name"}, path : {"segs"}, ans : Answers, local : {"active", "deactivated"}, meta : Metas, key : {NA}, built : Builds]
+Pure       == [m : {"jwk", "key"}, host : {NA}, path : {NA}, ans : {NA}, local : {"none"}, meta : Metas, key : KeyClasses, built : Builds]
 Cases      == WebRemote \cup WebManaged \cup Pure
 
 Init == /\ c \in Cases
-        /\ pc = "route" /\ fetches = {} /\ outcome = "none" /\ docid = "none" /\ why = "" /\ rt = NA
+        /\ pc = "boot1" /\ fetches = {} /\ outcome = "none" /\ docid = "none" /\ why = "" /\ rt = NA
+        /\ flag = FALSE /\ atBuild = FALSE
+
+\* Start-up of a strict node: two things happen in an order that is a dimension of the case.
+\*   "before-strict"  vdr.Configure (didweb.NewResolver -> client.NewWithCache) runs first, http.Engine.Configure afterwards: the
+\*                    order of cmd.CreateSystem, i.e. the resolver every node really has
+\*   "after-strict"   the flag is on before the resolver is built (what unit tests and ad-hoc constructions do)
+BuildFirst == c.built = "before-strict"
+Boot1 == /\ pc = "boot1" /\ pc' = "boot2"
+         /\ IF BuildFirst THEN atBuild' = flag /\ UNCHANGED flag ELSE flag' = TRUE /\ UNCHANGED atBuild
+         /\ UNCHANGED <<c, fetches, outcome, docid, why, rt>>
+Boot2 == /\ pc = "boot2" /\ pc' = "route"
+         /\ IF BuildFirst THEN flag' = TRUE /\ UNCHANGED atBuild ELSE atBuild' = flag /\ UNCHANGED flag
+         /\ UNCHANGED <<c, fetches, outcome, docid, why, rt>>
+PolicyStrict == IF LiveRedirectPolicy THEN flag ELSE atBuild
 
 Done(o, d, w) == /\ pc' = "done" /\ outcome' = o /\ docid' = d /\ why' = w
 
@@ -105,7 +126,7 @@ Route == /\ pc = "route"
               THEN pc' = "local" /\ UNCHANGED <<outcome, docid, why>>
               ELSE \* didjwk / didkey: decode the identifier, build the document around it
                    IF c.key = "valid" THEN Done("doc", "requested", "") ELSE Done("error", "none", "key")
-         /\ UNCHANGED <<c, fetches, rt>>
+         /\ UNCHANGED <<c, fetches, rt, flag, atBuild>>
 
 \* didsubject/resolver.go, first element of the chain; only ErrNotFound falls through to the web resolver
 Local == /\ pc = "local"
@@ -113,7 +134,7 @@ Local == /\ pc = "local"
               [] c.local = "active"      -> Done("doc", "requested", "")
               [] c.local = "deactivated" -> IF c.meta = "true" THEN Done("doc", "requested", "")
                                                                ELSE Done("error", "none", "deactivated")
-         /\ UNCHANGED <<c, fetches, rt>>
+         /\ UNCHANGED <<c, fetches, rt, flag, atBuild>>
 
 \* didweb/util.go DIDToURL (and the round trip through URLToDID, evaluated on the side)
 Parse == /\ pc = "parse"
@@ -121,38 +142,39 @@ Parse == /\ pc = "parse"
          /\ IF HostAccepted(c.host) /\ ~PathRejected(c.path)
               THEN pc' = "fetch" /\ UNCHANGED <<outcome, docid, why>>
               ELSE Done("error", "none", "identifier")
-         /\ UNCHANGED <<c, fetches>>
+         /\ UNCHANGED <<c, fetches, flag, atBuild>>
 
 \* web.go + StrictHTTPClient.Do: the first request always goes to https://<host>/<path>/did.json
 Fetch == /\ pc = "fetch"
          /\ fetches' = fetches \cup {[scheme |-> "https", host |-> "enc",
                                       path |-> IF PathFetchedAsEncoded(c.path) THEN "enc" ELSE "other"]}
          /\ IF IsRedirect(c.ans)
-              THEN IF RedirectLeaves(c.ans) /\ RedirectRefused(c.ans)
+              THEN IF RedirectLeaves(c.ans) /\ RedirectRefused(c.ans, PolicyStrict)
                      THEN Done("error", "none", "redirect")
                      ELSE pc' = "follow" /\ UNCHANGED <<outcome, docid, why>>
               ELSE pc' = "check" /\ UNCHANGED <<outcome, docid, why>>
-         /\ UNCHANGED <<c, rt>>
+         /\ UNCHANGED <<c, rt, flag, atBuild>>
 
 \* net/http follows the Location; the target answers with a well-formed document carrying the requested id (worst case)
 Follow == /\ pc = "follow"
           /\ fetches' = fetches \cup {RedirOrigin(c.ans)}
           /\ Done("doc", "requested", "")
-          /\ UNCHANGED <<c, rt>>
+          /\ UNCHANGED <<c, rt, flag, atBuild>>
 
 Check == /\ pc = "check"
          /\ IF AnswerYieldsDoc(c.ans) THEN Done("doc", "requested", "")
             ELSE Done("error", "none", IF AnswerIdMatches(c.ans) THEN "answer" ELSE "id")
-         /\ UNCHANGED <<c, fetches, rt>>
+         /\ UNCHANGED <<c, fetches, rt, flag, atBuild>>
 
-Next == Route \/ Local \/ Parse \/ Fetch \/ Follow \/ Check
+Next == Boot1 \/ Boot2 \/ Route \/ Local \/ Parse \/ Fetch \/ Follow \/ Check
 Spec == Init /\ [][Next]_vars
 
 (*--------------------------- the property --------------------------------*)
 Terminal == pc = "done"
 
 TypeOK == /\ c \in Cases
-          /\ pc \in {"route", "local", "parse", "fetch", "follow", "check", "done"}
+          /\ flag \in BOOLEAN /\ atBuild \in BOOLEAN
+          /\ pc \in {"boot1", "boot2", "route", "local", "parse", "fetch", "follow", "check", "done"}
           /\ outcome \in {"none", "doc", "error"} /\ docid \in {"none", "requested", "other"}
           /\ rt \in {NA, "ok", "fail"}
 
